@@ -159,3 +159,14 @@ Theorem reads_unbanned_is_reached : forall jsc_len enum_len files banned s0 s,
   reads_unbanned jsc_len enum_len files banned s0 s -> scan_reach jsc_len enum_len files banned s0 s.
 Proof. exact reads_unbanned_reach. Qed.
 Print Assumptions reads_unbanned_is_reached.
+
+(* at the catalog stage the ban test comes before the table of adders: a directive of a banned kind is refused
+   with `not allowed` at its keyword whether or not its kind has an adder, whatever the state *)
+From JV.model Require Import Catalog.
+From JV.proofs Require Import AdderProofs.
+Theorem banned_refused_before_any_adder :
+  forall (body_text : coords -> bytes) (banned : list kind) t anc b,
+  kind_in (d_kind (tree_dir t)) banned = true ->
+  add_directive body_text banned t anc b = CErr (kw_err (tree_dir t) (CENotAllowed (d_kind (tree_dir t)))).
+Proof. exact banned_before_adder_lemma. Qed.
+Print Assumptions banned_refused_before_any_adder.
